@@ -60,3 +60,14 @@ Theorem sparse_eq_dense_gradscalar_quadratic : forall n M (X : list (list R)) Xt
   = @Quadratic_gradient_scalar R _ Xty X y w Xw j.
 Proof. exact Quadratic_gradient_scalar_sparse_eq_dense. Qed.
 Print Assumptions sparse_eq_dense_gradscalar_quadratic.
+
+(* group datafit: the regenerated QuadraticGroup.gradient_g_sparse returns the same numbers as gradient_g on the dense
+   columns the CSC denotes, for ANY group structure (non-contiguous, shuffled grp_indices included) *)
+Require Import SK.Lemmas.Consistency SK.Gen.DfGroup SK.Lemmas.DfGroupSparse.
+Theorem quadratic_group_gradient_sparse_eq_dense :
+  forall n M (X : list (list R)) grp_ptr grp_indices y w Xw g, length Xw = n -> length y = n ->
+  (forall j, In j grp_indices -> exists lo hi, col_bounds M j lo hi /\ wf_col n M lo hi /\ mcol X j = Ok (dense_col n M lo hi)) ->
+  @QuadraticGroup_gradient_g_sparse R _ grp_ptr grp_indices (cdata M) (cindptr M) (cindices M) y w Xw g
+  = @QuadraticGroup_gradient_g R _ grp_ptr grp_indices X y w Xw g.
+Proof. exact QuadraticGroup_gradient_g_sparse_eq_dense. Qed.
+Print Assumptions quadratic_group_gradient_sparse_eq_dense.
